@@ -8,6 +8,7 @@ import DiskfsModel.Model.Sqfs.Regions
 import DiskfsModel.Model.Sqfs.Inode
 import DiskfsModel.Model.Sqfs.Walk
 import DiskfsModel.Model.Sqfs.ImageRd
+import DiskfsModel.Model.Sqfs.ImageWr
 namespace Driver.Sqfs
 open Diskfs Diskfs.Sqfs Driver
 
@@ -290,6 +291,42 @@ def imgRdOp (args : List String) : IO String := do
         ";".intercalate (o.frags.map fun f => s!"{f.start}:{f.size}:{if f.compressed then 1 else 0}")
       return s!"bs={sb.blocksize}\troot={root.hdr.index}\tfrags={frs}\tids={natsStr o.ids}\tn={l.length}\tv={";".intercalate (sorted.map (·.2))}"
 
+/-! ### the writing side down to the bytes (Model/Sqfs/ImageWr.lean) -/
+
+/-- file list: entries separated by ';', fields namehex:kind:mode:uid:gid:mtime:links:datahex:kids ('+' separated, '-' none) -/
+def flOf (s : String) : List FEnt :=
+  if s == "" || s == "-" then [] else (s.splitOn ";").filterMap fun e =>
+    match e.splitOn ":" with
+    | [n, k, m, u, g, t, l, d, ks] =>
+      some { name := (fromHex n).getD [], kind := k.toNat!, mode := m.toNat!, uid := u.toNat!, gid := g.toNat!, mtime := t.toNat!,
+             links := l.toNat!, data := (fromHex d).getD [], kids := if ks == "-" then [] else (ks.splitOn "+").filterMap String.toNat? }
+    | _ => none
+
+def crcRange (img : Bytes) (lo hi : Nat) : Nat := crc32 ((img.drop lo).take (hi - lo))
+
+/-- sqfs.mkimg bs= exp= mtime= comp= flags= opt=hex fl=… fuel= → the image `buildImage` lays out for the file list
+    (identity codec: nothing is compressed): length, CRC of the whole image and of its five parts cut at the
+    superblock's table starts, the WriteAt list and table starts the REGION model computes from the sizes of the
+    pieces (must describe the same image), and whether the model's reader, run on the model's image, returns the
+    expected walk (rt) -/
+def mkImgOp (args : List String) : String :=
+  let o : WOpt := { bs := argNatD args "bs" 4096, noCompData := true, noCompFrag := true, optBytes := (argHex args "opt").getD [],
+                    exportable := argNatD args "exp" 1 == 1, modTime := argNatD args "mtime", compression := argNatD args "comp" 1,
+                    flags := argNatD args "flags" }
+  let fl := flOf ((arg args "fl").getD "-")
+  let fuel := argNatD args "fuel" 64
+  let b := buildImage idCodec o fl fuel
+  let img := b.image
+  let sb := b.sb
+  let f := finalize b.pieces
+  let regOK := f.bytesUsed == sb.bytesUsed && f.inodeStart == sb.inodeStart && f.dirStart == sb.dirStart && f.fragStart == sb.fragStart &&
+    f.idStart == sb.idStart && f.exportStart == sb.exportStart && f.bytesUsed == img.length
+  let dev := devOf (ByteArray.mk img.toArray) 0
+  let rt := match readImageS idCodec dev (fuel + 1) with
+    | some (sb', es) => sb' == sb && es == expectWalk fl b.inodes (fuel + 1) [] 0
+    | none => false
+  s!"n={img.length}\tcrc={crc32 img}\tc0={crcRange img 0 96}\tc1={crcRange img 96 sb.inodeStart}\tc2={crcRange img sb.inodeStart sb.dirStart}\tc3={crcRange img sb.dirStart sb.fragStart}\tc4={crcRange img sb.fragStart sb.bytesUsed}\treg={if regOK then 1 else 0}\trt={if rt then 1 else 0}"
+
 end Driver.Sqfs
 
 partial def loop (h : IO.FS.Stream) (out : IO.FS.Stream) : IO Unit := do
@@ -317,6 +354,7 @@ partial def loop (h : IO.FS.Stream) (out : IO.FS.Stream) : IO Unit := do
       | "sqfs.getinode" => Driver.Sqfs.getInodeOp args
       | "sqfs.getdir" => Driver.Sqfs.getDirOp args
       | "sqfs.imgrd" => Driver.Sqfs.imgRdOp args
+      | "sqfs.mkimg" => pure (Driver.Sqfs.mkImgOp args)
       | _ => pure "unknown-op"
     out.putStrLn s!"model\t{id}\t{r}"
   | _ => pure ()
